@@ -501,6 +501,23 @@ M('C12', 'dk-pass-stripped', FL, "            hpass = passphrase.encode('utf-8')
 M('C12', 'dk-contexts-forked-after-data', FL, "        h = []\n        for i in range(0, ctx):\n            _h = self.halg.hasher\n            _h.update(b'\\x00' * i)\n            _h.update(hashdata)\n            h.append(_h)\n",
   "        base = self.halg.hasher\n        base.update(hashdata)\n        h = []\n        for i in range(0, ctx):\n            _h = base.copy()\n            _h.update(b'\\x00' * i)\n            h.append(_h)\n", 'C12.1')
 M('C12', 'count-setter-stores-decoded', FL, "            raise ValueError(\"count must be between 0 and 256\")\n        self._count = val\n", "            raise ValueError(\"count must be between 0 and 256\")\n        self._count = (16 + (val & 15)) << ((val >> 4) + 6)\n", 'C12.3')
+# --- wave 5: class-level lookup table for the count, new derive_key parameter bound per call site
+_CNT_DEF = "    @sdproperty\n    def count(self):\n        return (16 + (self._count & 15)) << ((self._count >> 4) + 6)"
+T('C12', 'twin-count-table', FL, _CNT_DEF, "    _octet_counts = tuple((16 + (c & 15)) << ((c >> 4) + 6) for c in range(256))\n\n    @sdproperty\n    def count(self):\n        return self._octet_counts[self._count]")
+T('C12', 'twin-count-table-list', FL, _CNT_DEF, "    _EXPBIAS = 6\n    _COUNTS = [(16 + m) << (e + _EXPBIAS) for e in range(16) for m in range(16)][:256] if False else [(16 + (c % 16)) << ((c // 16) + 6) for c in range(256)]\n\n    @sdproperty\n    def count(self):\n        return String2Key._COUNTS[self._count]"
+  .replace("[(16 + m) << (e + _EXPBIAS) for e in range(16) for m in range(16)][:256] if False else ", ""))
+M('C12', 'count-table-255-entries', FL, _CNT_DEF, "    _octet_counts = tuple((16 + (c & 15)) << ((c >> 4) + 6) for c in range(1, 256))\n\n    @sdproperty\n    def count(self):\n        return self._octet_counts[self._count - 1]", 'C12.3')
+M('C12', 'count-table-bias-5', FL, _CNT_DEF, "    _octet_counts = tuple((16 + (c & 15)) << ((c >> 4) + 5) for c in range(256))\n\n    @sdproperty\n    def count(self):\n        return self._octet_counts[self._count]", 'C12.3')
+M('C12', 'count-table-clamped', FL, _CNT_DEF, "    _octet_counts = tuple(min((16 + (c & 15)) << ((c >> 4) + 6), 1 << 25) for c in range(256))\n\n    @sdproperty\n    def count(self):\n        return self._octet_counts[self._count]", 'C12.3')
+_DK_SIG = "    def derive_key(self, passphrase):\n        ##TODO: raise an exception if self.usage is not 254 or 255\n        keylen = self.encalg.key_size\n"
+_DK_SIG_KW = "    def derive_key(self, passphrase, *, keylen=None):\n        ##TODO: raise an exception if self.usage is not 254 or 255\n        if keylen is None:\n            keylen = self.encalg.key_size\n"
+_DK_CALL = "        sessionkey = self.s2k.derive_key(passphrase)\n        del passphrase\n\n        pt = bytearray()"
+T('C12', 'twin-dk-keylen-param', FL, _DK_SIG, _DK_SIG_KW, more=[(FL, _DK_CALL, _DK_CALL.replace("derive_key(passphrase)", "derive_key(passphrase, keylen=self.s2k.encalg.key_size)"))])
+T('C12', 'twin-dk-keylen-param-positional', FL, _DK_SIG, _DK_SIG_KW.replace("passphrase, *, keylen=None", "passphrase, keylen=None"), more=[(FL, _DK_CALL, _DK_CALL.replace("derive_key(passphrase)", "derive_key(passphrase, self.s2k.encalg.key_size)"))])
+M('C12', 'dk-keylen-param-caller-128', FL, _DK_SIG, _DK_SIG_KW, 'C12.1', more=[(FL, _DK_CALL, _DK_CALL.replace("derive_key(passphrase)", "derive_key(passphrase, keylen=128)"))])
+M('C12', 'dk-keylen-param-caller-block-size', FL, _DK_SIG, _DK_SIG_KW, 'C12.1', more=[(FL, _DK_CALL, _DK_CALL.replace("derive_key(passphrase)", "derive_key(passphrase, keylen=self.s2k.encalg.block_size)"))])
+M('C12', 'dk-keylen-param-default-256', FL, _DK_SIG, "    def derive_key(self, passphrase, *, keylen=256):\n        ##TODO: raise an exception if self.usage is not 254 or 255\n", 'C12.1')
+M('C12', 'dk-keylen-param-bytes', FL, _DK_SIG, _DK_SIG_KW, 'C12.1', more=[(FL, _DK_CALL, _DK_CALL.replace("derive_key(passphrase)", "derive_key(passphrase, keylen=self.s2k.encalg.key_size // 8)"))])
 M('C12', 'count-getter-or-default', FL, "        return (16 + (self._count & 15)) << ((self._count >> 4) + 6)", "        c = self._count or self.halg.tuned_count\n        return (16 + (c & 15)) << ((c >> 4) + 6)", 'C12.3')
 M('C12', 'count-getter-255-special', FL, "        return (16 + (self._count & 15)) << ((self._count >> 4) + 6)", "        if self._count == 255:\n            return self.encalg.block_size * 1024\n        return (16 + (self._count & 15)) << ((self._count >> 4) + 6)", 'C12.3')
 M('C12', 'count-getter-255-capped', FL, "        return (16 + (self._count & 15)) << ((self._count >> 4) + 6)", "        if self._count == 255:\n            return 0x2000000\n        return (16 + (self._count & 15)) << ((self._count >> 4) + 6)", 'C12.3')
@@ -2919,6 +2936,16 @@ M('C06', 'unlock-cleanup-in-else-only', PGP, _UNL_TRY, _UNL_BODY + "        exce
 M('C06', 'unlock-except-exception-and-generatorexit', PGP, _UNL_TRY, _UNL_BODY + "        except (Exception, GeneratorExit):\n" + _UNL_CLR + "\n            raise\n\n        else:\n" + _UNL_CLR, 'C06.1')
 T('C06', 'twin-unlock-except-baseexception', PGP, _UNL_TRY, _UNL_BODY + "        except BaseException:\n" + _UNL_CLR + "\n            raise\n\n        else:\n" + _UNL_CLR)
 T('C06', 'twin-unlock-bare-except-closure', PGP, _UNL_TRY, "        def _relock():\n" + _UNL_CLR + "\n\n" + _UNL_BODY + "        except:  # noqa: E722\n            _relock()\n            raise\n\n        else:\n            _relock()")
+# --- wave 5: the coded count rule under a C06 id (protect() stores a coded count), extra derive_key argument at the call site
+M('C06', 'count-clamped-2-25', FL, "        return (16 + (self._count & 15)) << ((self._count >> 4) + 6)", "        return min((16 + (self._count & 15)) << ((self._count >> 4) + 6), 1 << 25)", 'C06.9')
+M('C06', 'count-or-default', FL, "        return (16 + (self._count & 15)) << ((self._count >> 4) + 6)", "        c = self._count or 96\n        return (16 + (c & 15)) << ((c >> 4) + 6)", 'C06.9')
+M('C06', 'count-setter-254', FL, "        if val < 0 or val > 255:  # pragma: no cover", "        if val < 0 or val >= 255:  # pragma: no cover", 'C06.9')
+T('C06', 'twin-keyblob-derive-keylen-kw', FL, "    def derive_key(self, passphrase):\n        ##TODO: raise an exception if self.usage is not 254 or 255\n        keylen = self.encalg.key_size\n",
+  "    def derive_key(self, passphrase, *, keylen=None):\n        ##TODO: raise an exception if self.usage is not 254 or 255\n        if keylen is None:\n            keylen = self.encalg.key_size\n",
+  more=[(FL, "        sessionkey = self.s2k.derive_key(passphrase)\n        del passphrase\n\n        pt = bytearray()", "        sessionkey = self.s2k.derive_key(passphrase, keylen=self.s2k.encalg.key_size)\n        del passphrase\n\n        pt = bytearray()")])
+M('C06', 'keyblob-derive-keylen-of-caller-arg', FL, "    def derive_key(self, passphrase):\n        ##TODO: raise an exception if self.usage is not 254 or 255\n        keylen = self.encalg.key_size\n",
+  "    def derive_key(self, passphrase, *, keylen=None):\n        ##TODO: raise an exception if self.usage is not 254 or 255\n        if keylen is None:\n            keylen = self.encalg.key_size\n", 'C06.8',
+  more=[(FL, "        sessionkey = self.s2k.derive_key(passphrase)\n        del passphrase\n\n        pt = bytearray()", "        sessionkey = self.s2k.derive_key(passphrase, keylen=192)\n        del passphrase\n\n        pt = bytearray()")])
 M('C06', 'keyblob-clear-first', FL, "        sessionkey = self.s2k.derive_key(passphrase)\n        del passphrase\n\n        pt = bytearray()\n", "        sessionkey = self.s2k.derive_key(passphrase)\n        del passphrase\n        self.clear()\n\n        pt = bytearray()\n", 'C06.3',
   more=[(FL, "        # delete pt and clear self\n        del pt\n        self.clear()", "        # delete pt\n        del pt")])
 M('C06', 'privkey-cached-module-dict', FL, "        params = dsa.DSAParameterNumbers(self.p, self.q, self.g)\n        pn = dsa.DSAPublicNumbers(self.y, params)\n        return dsa.DSAPrivateNumbers(self.x, pn).private_key(default_backend())",
@@ -3910,6 +3937,18 @@ T('C09', 'twin-mpi-unused-attribute', PT, "        return super(MPI, cls).__new_
 T('C09', 'twin-mpi-bytelen-cached', PT, "    def byte_length(self):\n        return ((self.bit_length() + 7) // 8)\n",
   "    def byte_length(self):\n        cached = getattr(self, '_nbytes', None)\n        if cached is None:\n            cached = (self.bit_length() + 7) // 8\n            setattr(self, '_nbytes', cached)\n        return cached\n")
 M('C09', 'malformed-length-fstring-special', TY, "                if 192 > fo:\n                    return (self.bytes_to_int(a[offset:offset + 1]), 1, False)", "                if 192 > fo:\n                    return (int(f'{fo:03d}'[-2:]) if fo > 99 else fo, 1, False)", 'C09.1')
+
+# --- C09 fourth round: width of the length field as it arrived must not survive into what is written back
+_NEWLEN_TAIL = "                self._len = total\n            else:\n                self._len = part_len\n"
+M('C09', 'llen-remembers-parsed-width', TY, _NEWLEN_TAIL, _NEWLEN_TAIL + "            self._nllen = size\n", 'C09.1',
+  more=[(TY, "        lf = self._lenfmt\n\n        if lf == 1:\n            # new-format length\n", "        lf = self._lenfmt\n\n        if lf == 1:\n            # new-format length\n            if getattr(self, '_nllen', None) is not None:\n                return self._nllen\n"),
+        (TY, "    def length_int(self, val):\n        self._len = val\n", "    def length_int(self, val):\n        self._len = val\n        self._nllen = None\n")])
+M('C09', 'five-octet-kept-when-parsed', TY, "                    return (self.bytes_to_int(b[offset + 1:offset + 5]), 5, False)", "                    self._five = True\n                    return (self.bytes_to_int(b[offset + 1:offset + 5]), 5, False)", 'C09.1',
+  more=[(TY, "            if 192 > nl:\n                return Header.int_to_bytes(nl)", "            if 192 > nl and not wide:\n                return Header.int_to_bytes(nl)"),
+        (TY, "            elif 8384 > nl:\n                elen", "            elif 8384 > nl and not wide:\n                elen"),
+        (TY, "    def encode_length(length, nhf=True, llen=1):\n        def _new_length(nl):", "    def encode_length(length, nhf=True, llen=1, wide=False):\n        def _new_length(nl):"),
+        (PT, "        _bytes += self.encode_length(self.length, self._lenfmt, self.llen)", "        _bytes += self.encode_length(self.length, self._lenfmt, self.llen, getattr(self, '_five', False))")])
+T('C09', 'twin-parsed-width-recorded-unused', TY, _NEWLEN_TAIL, _NEWLEN_TAIL + "            self._wire_llen = size\n")
 
 # =============================================================================================== C20
 M('C20', 'ops-loop-forward', PGP, "            for sig in reversed(self._signatures):\n                ops = sig.make_onepass()", "            for sig in self._signatures:\n                ops = sig.make_onepass()", 'C20.2')
@@ -4953,3 +4992,32 @@ for _p, _r in (('C01', 'C01.1'), ('C02', 'C02.1'), ('C11', 'C11.4')):
     M(_p, 'canon-fast-path-guard-lf-in-prefix-only', PGP, _CAN, _FAST % "b'\\n' not in subject[:64]", _r)
     M(_p, 'canon-fast-path-guard-inverted', PGP, _CAN, _FAST % "b'\\n' in subject", _r)
     M(_p, 'canon-fast-path-guard-or-type', PGP, _CAN, _FAST % "isinstance(subject, bytearray) or b'\\n' not in subject", _r)
+# wave 5: body helper on Packet, class-level ASN.1 layout, area selection helper with identity test, header fields on the load path
+PTY = 'pgpy/packet/types.py'
+_UPD = "    def update_hlen(self):\n        self.header.length = len(self.__bytearray__()) - len(self.header)\n\n    @abc.abstractmethod"
+_KHD = "        return pub.__bytearray__()[len(pub.header):]"
+for _p in ('C01', 'C02'):
+    T(_p, 'twin-key-hashdata-packet-body-helper', PGP, _KHD, "        return pub.__bodybytearray__()",
+      more=[(PTY, _UPD, "    def __bodybytearray__(self):\n        return self.__bytearray__()[len(self.header):]\n\n" + _UPD)])
+    M(_p, 'key-hashdata-packet-body-helper-keeps-header', PGP, _KHD, "        return pub.__bodybytearray__()", _p + '.1b',
+      more=[(PTY, _UPD, "    def __bodybytearray__(self):\n        return self.__bytearray__()[len(self.header) - 1:]\n\n" + _UPD)])
+_DSA = "        seq = Sequence(componentType=NamedTypes(*[NamedType(n, Integer()) for n in self.__mpis__]))\n"
+T('C02', 'twin-dsa-sig-class-level-layout', FL, _DSA, "        seq = Sequence(componentType=self._der_components)\n",
+  more=[(FL, "class DSASignature(Signature):\n    __mpis__ = ('r', 's')\n", "class DSASignature(Signature):\n    __mpis__ = ('r', 's')\n    _der_components = NamedTypes(*[NamedType(n, Integer()) for n in __mpis__])\n")])
+M('C02', 'dsa-sig-class-level-layout-reversed', FL, _DSA, "        seq = Sequence(componentType=self._der_components)\n", 'C02.4',
+  more=[(FL, "class DSASignature(Signature):\n    __mpis__ = ('r', 's')\n", "class DSASignature(Signature):\n    __mpis__ = ('r', 's')\n    _der_components = NamedTypes(*[NamedType(n, Integer()) for n in reversed(__mpis__)])\n")])
+_SET = "        d = self._unhashed_sp\n        if key.startswith('h_'):\n            d, key = self._hashed_sp, key[2:]\n            self._hashed_raw = None\n"
+_AREA = "        area, key = self._area_for(key)\n        if area is %s:\n            self._hashed_raw = None\n        d = area\n"
+_AREA_HELPER = ("    def _area_for(self, key):\n        if key.startswith('h_'):\n            return self._hashed_sp, key[2:]\n        return self._unhashed_sp, key\n\n"
+                "    def __getitem__(self, key):\n        if isinstance(key, tuple):  # pragma: no cover\n            return self._hashed_sp.get")
+_GET = "    def __getitem__(self, key):\n        if isinstance(key, tuple):  # pragma: no cover\n            return self._hashed_sp.get"
+T('C05', 'twin-setitem-area-helper-identity-test', FL, _SET, _AREA % 'self._hashed_sp', more=[(FL, _GET, _AREA_HELPER)])
+M('C05', 'setitem-area-helper-identity-test-wrong-area', FL, _SET, _AREA % 'self._unhashed_sp', 'C05.3', more=[(FL, _GET, _AREA_HELPER)])
+M('C05', 'setitem-area-helper-identity-test-negated', FL, _SET, _AREA % 'not self._hashed_sp', 'C05.3', more=[(FL, _GET, _AREA_HELPER)])
+_LOADP = "            else:\n                self._signature = pkt\n        else:\n            raise ValueError('Expected: Signature. Got: {:s}'.format(pkt.__class__.__name__))"
+M('C05', 'load-rewrites-timestamp-type', PGP, _LOADP, "            else:\n                self._signature = pkt\n                if pkt.sigtype == SignatureType.Timestamp and len(pkt.subpackets._hashed_sp) > 1:\n                    pkt.sigtype = SignatureType.Standalone\n        else:\n            raise ValueError('Expected: Signature. Got: {:s}'.format(pkt.__class__.__name__))", 'C05.1')
+M('C05', 'load-upgrades-hash-algorithm-field', PGP, _LOADP, "            else:\n                self._signature = pkt\n                if self._signature.halg == HashAlgorithm.MD5:\n                    self._signature._halg = HashAlgorithm.SHA1\n        else:\n            raise ValueError('Expected: Signature. Got: {:s}'.format(pkt.__class__.__name__))", 'C05.1')
+M('C05', 'load-composition-normalises-version', PGP, "        if isinstance(other, Signature):\n            if self._signature is None:\n                self._signature = other\n                return self\n",
+  "        if isinstance(other, Signature):\n            if self._signature is None:\n                self._signature = other\n                other.header.version = 4\n                return self\n", 'C05.1')
+M('C05', 'load-setattr-pubalg', PGP, _LOADP, "            else:\n                self._signature = pkt\n                if pkt.pubalg in (PubKeyAlgorithm.RSAEncrypt, PubKeyAlgorithm.RSASign):\n                    setattr(pkt, 'pubalg', PubKeyAlgorithm.RSAEncryptOrSign)\n        else:\n            raise ValueError('Expected: Signature. Got: {:s}'.format(pkt.__class__.__name__))", 'C05.1')
+T('C05', 'twin-load-reads-header-fields-only', PGP, _LOADP, "            else:\n                sigtype, halg = pkt.sigtype, pkt.halg\n                self._signature = pkt\n        else:\n            raise ValueError('Expected: Signature. Got: {:s}'.format(pkt.__class__.__name__))")
